@@ -40,6 +40,14 @@ const (
 	AStop
 	ACheckpoint
 	AHealPhase
+	AVElect
+	AVPropose
+	AVReplicate
+	AVCommit
+	AVCompact
+	AVSendApp
+	AVHeartbeat
+	AVSendSnap
 	numActKinds
 )
 
@@ -49,6 +57,7 @@ var actNames = [...]string{
 	"Propose", "ConfChange", "ReadIndex", "Transfer", "Campaign", "ForgetLeader",
 	"Unreachable", "SnapReport", "Compact", "Crash", "Restart", "Partition", "Heal",
 	"SnapFault", "Stop", "Checkpoint", "HealPhase",
+	"VElect", "VPropose", "VReplicate", "VCommit", "VCompact", "VSendApp", "VHeartbeat", "VSendSnap",
 }
 
 func (k ActKind) String() string {
@@ -105,6 +114,8 @@ type CCSpec struct {
 //	SnapFault{N, I=number of Storage.Snapshot calls that return ErrSnapshotTemporarilyUnavailable}
 //	Stop{N} (node leaves for good)
 //	Checkpoint{N} application checkpoints its state machine durably
+//	VElect{N} VPropose{N,Tags=[tag],I=size} VReplicate{N=leader,M=peer,I=back-off} VCommit{N} VCompact{N,I=back-off}
+//	VSendApp{N,I=back-off of prev from the last index,J=max entries} VHeartbeat{N} VSendSnap{N}: the abstract peers of E2 (followersim)
 //	HealPhase{I=seed}: marker; everything after it is produced by the deterministic heal procedure
 type Action struct {
 	K    ActKind    `json:"k"`
@@ -157,6 +168,9 @@ type RunConfig struct {
 	// write group containing a snapshot is not atomic). Off in all property
 	// profiles (assumption A3).
 	SplitSnapshot bool `json:"split_snapshot,omitempty"`
+	// Virtual lists the ids of abstract peers (E2 followersim): members of the
+	// configuration that are modelled, not run.
+	Virtual []uint64 `json:"virtual,omitempty"`
 }
 
 func (rc *RunConfig) node(id uint64) *NodeCfg {
